@@ -29,14 +29,15 @@ type segLine struct {
 }
 
 // readSegments parses a trace file back into (cfg, input sequence) pairs.
-func readSegments(path string) ([]Cfg, []Seq, error) {
+func readSegments(path string) ([]Cfg, []Seq, []int, error) {
 	f, err := os.Open(path)
 	if err != nil {
-		return nil, nil, err
+		return nil, nil, nil, err
 	}
 	defer f.Close()
 	var cfgs []Cfg
 	var seqs []Seq
+	var cuts []int
 	clock := 0
 	sc := bufio.NewScanner(f)
 	sc.Buffer(make([]byte, 1<<20), 1<<26)
@@ -46,21 +47,27 @@ func readSegments(path string) ([]Cfg, []Seq, error) {
 		}
 		var ln segLine
 		if err := json.Unmarshal(sc.Bytes(), &ln); err != nil {
-			return nil, nil, err
+			return nil, nil, nil, err
 		}
 		switch ln.Ev {
 		case "Reset":
 			if ln.Cfg == nil {
-				return nil, nil, fmt.Errorf("Reset line without setup")
+				return nil, nil, nil, fmt.Errorf("Reset line without setup")
 			}
 			c := ln.Cfg
 			cfgs = append(cfgs, Cfg{Has: c.Has, Rst: c.Rst, Sco: c.Sco, Scod: c.Scod, NoRec: c.Norec, All: c.All,
 				Flap: c.Flap, Flo: c.Flo, Fhi: c.Fhi, H: c.H, Batch: c.Batch})
 			seqs = append(seqs, nil)
+			cuts = append(cuts, -1)
 			clock = 0
+		case "Restart":
+			if len(seqs) == 0 {
+				return nil, nil, nil, fmt.Errorf("Restart line before Reset")
+			}
+			cuts[len(cuts)-1] = len(seqs[len(seqs)-1])
 		case "S":
 			if len(seqs) == 0 {
-				return nil, nil, fmt.Errorf("S line before Reset")
+				return nil, nil, nil, fmt.Errorf("S line before Reset")
 			}
 			st := Step{}
 			t := clock
@@ -73,13 +80,13 @@ func readSegments(path string) ([]Cfg, []Seq, error) {
 			seqs[len(seqs)-1] = append(seqs[len(seqs)-1], st)
 		}
 	}
-	return cfgs, seqs, sc.Err()
+	return cfgs, seqs, cuts, sc.Err()
 }
 
 // Replay re-executes the inputs of a saved trace segment on the real code, each
 // sequence alone in its own task, and records a fresh trace.
 func Replay(r *rt.Run, path string) error {
-	cfgs, seqs, err := readSegments(path)
+	cfgs, seqs, cuts, err := readSegments(path)
 	if err != nil {
 		return err
 	}
@@ -91,8 +98,8 @@ func Replay(r *rt.Run, path string) error {
 	t := r.NewTrace("trace")
 	for i := range cfgs {
 		id := fmt.Sprintf("r%d", i+1)
-		obs, rep := x.Run(cfgs[i], []Seq{seqs[i]}, []string{id})
-		emit(t, cfgs[i], id, seqs[i], obs[0], rep)
+		obs, rep := x.Run(cfgs[i], []Seq{seqs[i]}, []string{id}, cuts[i])
+		emit(t, cfgs[i], id, seqs[i], obs[0], rep, cuts[i])
 		t.Distinct(cfgs[i].String() + "#" + seqs[i].key())
 	}
 	r.Finish("replay of the inputs of a saved trace segment on the real code", false)
